@@ -452,4 +452,10 @@ Proof.
   - apply sorted_filter. unfold f. apply (sorted_rows_map (fun r0 => vecdot (row_vec m r0) v1)).
 Qed.
 
+Lemma mulvec_shape : forall (m : csm S) (v1 r : vec S), mulvec m v1 = Ok r -> vdim r = major m /\ WFv r.
+Proof.
+  intros m v1 r H. pose proof (mulvec_spec m v1) as Hs. rewrite H in Hs.
+  destruct Hs as (_ & _ & Hd & W & _). split; assumption.
+Qed.
+
 End Vector.
